@@ -121,6 +121,7 @@ func c13(c *q.Ctx) {
 	poolMapOwner(c)
 	poolReadmission(c)
 	poolRollback(c)
+	poolConflictScan(c)
 	// a block whose transactions delete and re-create a key replays on a node that never saw them
 	commitVersionChecks(c)
 }
